@@ -308,9 +308,9 @@ static void xor_apply(uint64_t key, uint64_t pos, unsigned char *p, size_t n)
 static void check_overfill(struct endpoint *ep, int ulayer, const char *who);
 
 static int filt_depth;
-static struct evbuffer *active_src[16];
-static size_t active_before[16], active_n[16], active_grown[16];   /* src length before the removal in progress, its size, bytes others added since */
-static int active_type[16], active_state[16];                     /* state: 0 unjudged, 1 source was consistent, 2 source was stale */
+static struct evbuffer *active_src[256];
+static size_t active_before[256], active_n[256], active_grown[256];   /* src length before the removal in progress, its size, bytes others added since */
+static int active_type[256], active_state[256];                     /* state: 0 unjudged, 1 source was consistent, 2 source was stale */
 /* called from the evbuffer monitors: somebody added n bytes to buf */
 static void note_growth(struct evbuffer *buf, size_t n)
 {
@@ -434,7 +434,7 @@ static enum bufferevent_filter_result filt_run(struct fctx *fx, int out, struct 
 			}
 		if (filt_depth) vh_stat("filter_calls_nested");
 	}
-	if (filt_depth >= 16) return BEV_NEED_MORE;
+	if (filt_depth >= 255) { vh_stat("filter_nesting_too_deep"); return BEV_NEED_MORE; }
 	active_src[filt_depth] = src; active_before[filt_depth] = avail; active_n[filt_depth] = 0; active_grown[filt_depth] = 0;
 	active_state[filt_depth] = 0; active_type[filt_depth] = fx->type;
 	filt_depth++;
@@ -764,11 +764,15 @@ static void app_eventcb(struct bufferevent *bev, short what, void *arg)
 	{
 		size_t il = evbuffer_get_length(bufferevent_get_input(ep->top)), hi = ep->top->wm_read.high;
 		int q, full = hi && il >= hi;
-		for (q = 1; q < ep->nl - 1; q++) {   /* a filter further down may be the one that is full */
-			struct bufferevent *u = ep->L[q].bev;
-			if (u->wm_read.high && evbuffer_get_length(u->input) >= u->wm_read.high) full = 1;
+		for (q = 0; q < ep->nl - 1; q++) {
+			/* bytes stranded below a filter that has (had) a read high watermark: the filter further
+			 * down may be the one that is, or was until its reader drained it, full */
+			struct bufferevent *u = ep->L[q].bev, *ab = ep->L[q + 1].bev;
+			if (evbuffer_get_length(u->input) && ab->wm_read.high) full = 1;
+			if (u->wm_read.high && evbuffer_get_length(u->input) >= u->wm_read.high && q > 0) full = 1;
 		}
-		eof_cause = !(ep->top->enabled & EV_READ) || s->b_disabled_at_shut ? "-rd-disabled" : full ? "-at-high-watermark" : "";
+		eof_cause = !(ep->top->enabled & EV_READ) || s->b_disabled_at_shut ?
+		    ((hi && il == hi && ep->L[ep->nl - 1].kind == LK_PAIR) ? "-rd-disabled-filled-to-high-watermark" : "-rd-disabled") : full ? "-at-high-watermark" : "";
 	}
 	consume(ep, (size_t)-1);   /* whatever was delivered is in the input buffer now */
 	D = ep->consumed; W = peer(ep)->written;
